@@ -127,6 +127,11 @@ class Exec(Engine):
             return self.from_resolved(r, node)
         if name in BUILTINS:
             return VFn(('builtin', name))
+        if st.spec:
+            # contract vocabulary: the character predicates of scanner_utils are visible in every clause
+            r = loader.resolve(loader.load('emmet.scanner_utils'), name)
+            if r is not None and r[0] == 'func':
+                return self.from_resolved(r, node)
         if name == 'True':
             return VBool(True)
         raise Unsupported('unbound name %r' % name, node)
@@ -694,7 +699,7 @@ class Exec(Engine):
             return fresh_bool('inlist')
         if isinstance(cont, VRec):
             if isinstance(x, VStr) and x.lit is not None:
-                return z3.BoolVal(x.lit in self.rec_fields(cont.name))
+                return self.rec_present(st, cont, x.lit)
             raise Unsupported('`in` on a record with non-literal key', node)
         if isinstance(cont, VAny):
             return self.any_contains(cont, x)
